@@ -231,6 +231,14 @@ def lower_read(term, atoms: Atoms, buffer_ok) -> Optional[Read]:
             r.kind = 'bool' if kind == 'b' and w == 1 else 'int'
             return r
         raise LayoutError('unpack result of %s' % name)
+    if k in ('pure', 'call') and t[1] in ('bytes', 'bytearray', 'memoryview'):
+        # a copy / view of wire bytes is those bytes
+        args = t[3] if k == 'pure' else t[2]
+        if isinstance(args, tuple) and len(args) == 1:
+            return lower_read(args[0], atoms, buffer_ok)
+    if k == 'item' and t[2][0] != 'slice' and buffer_ok(t[1]):
+        # indexing a bytes object: one unsigned byte at that position
+        return Read('int', to_lin(t[2], atoms), 1, [7 - j for j in range(8)])
     if k == 'item' and t[2][0] == 'slice':
         lo, hi, pad = _slice_of(t, atoms, buffer_ok)
         if pad:
